@@ -426,6 +426,16 @@ func (vc *VC) instr(ins ssa.Instruction) {
 		if !vc.isKnownNonNil(x.X) {
 			vc.safe("nil-deref", fmt.Sprintf("(not (= %s 0))", p.S), x.Pos())
 		}
+		if pa := vc.addrs[x.X]; pa != nil && pa.kind == "elem" {
+			et := pa.typ
+			if len(pa.path) > 0 {
+				et = pa.elemTyp
+			}
+			na := &Addr{kind: "elem", comp: pa.comp, base: pa.base, idx: pa.idx, typ: f.Type(), elemTyp: et, path: append(append([]int{}, pa.path...), x.Field)}
+			vc.addrs[x] = na
+			vc.vals[x] = Term{S: vc.elemSubRef(pa.comp, pa.base, pa.idx), Sort: "Int", T: x.Type()}
+			return
+		}
 		sp := vc.spaceOf(x.X)
 		a := &Addr{space: sp, kind: "field", comp: sp + fieldComp(st, f), base: p.S, typ: f.Type()}
 		vc.comp(a.comp, vc.compSortOrEmpty(f))
@@ -488,7 +498,7 @@ func (vc *VC) instr(ins ssa.Instruction) {
 			vc.assume(fmt.Sprintf("(= (strlen %s) %s)", t.S, l.S))
 			return
 		}
-		if !isStruct(elem) {
+		{
 			es := vc.sortOf(elem)
 			s := "(Array Int (Array Int " + es + "))"
 			k := elemComp(elem)
@@ -690,9 +700,6 @@ func (vc *VC) indexAddr(x *ssa.IndexAddr) {
 }
 
 func (vc *VC) elemCompSort(elem types.Type) string {
-	if isStruct(elem) {
-		return ""
-	}
 	return "(Array Int (Array Int " + vc.sortOf(elem) + "))"
 }
 
